@@ -152,6 +152,34 @@ func c17Server(t *testing.T, h []string) (viol string) {
 		nosec = nosec || x == "nosec=true"
 		preset = preset || x == "preset=true"
 	}
+	for _, x := range h {
+		if x == "conn=none" {
+			// the node opens its own socket (ServerConfig.Conn == nil): a real loopback-capable UDP
+			// socket, outside any bubble
+			cfg := dht.NewDefaultServerConfig()
+			cfg.PublicIP, cfg.NoSecurity = pub, nosec
+			cfg.StartingNodes = func() ([]dht.Addr, error) { return nil, nil }
+			if preset {
+				cfg.NodeId = sim.InBucket(sim.Root, 7, 3)
+			}
+			s, err := dht.NewServer(cfg)
+			if err != nil {
+				return "" // no socket available here: nothing to check
+			}
+			defer s.Close()
+			id := s.ID()
+			switch {
+			case preset && id != sim.InBucket(sim.Root, 7, 3):
+				return fmt.Sprintf("preset-id-changed: configured node id was replaced by %x", id)
+			case preset:
+			case id == (krpc.ID{}):
+				return "zero-own-id: server kept the zero ID"
+			case !refSecure(id, pub):
+				return fmt.Sprintf("own-id-insecure: generated ID %x does not verify for public IP %v (nosec=%v, socket opened by the server)", id, pub, nosec)
+			}
+			return ""
+		}
+	}
 	Bubble(t, func() {
 		y := NewSys(func(c *dht.ServerConfig) {
 			c.PublicIP = pub
@@ -379,18 +407,20 @@ func TestC17(t *testing.T) {
 	for _, pub := range []string{"124.31.75.21", "2001:db8::5", "8.8.4.4", "::ffff:21.75.31.124"} {
 		for _, nosec := range []bool{false, true} {
 			for _, preset := range []bool{false, true} {
-				i := idx
-				idx++
-				if !w.Mine(i) {
-					continue
-				}
-				c := explore.Case{Prop: "C17", Unit: "server", H: []string{"pub=" + pub, fmt.Sprintf("nosec=%v", nosec), fmt.Sprintf("preset=%v", preset)}}
-				w.BeginUnit(i, "server "+strings.Join(c.H, " "))
-				w.Journal(c)
-				for rep := 0; rep < 4; rep++ { // the generated ID is random when not deterministic
-					v := c17Server(t, c.H)
-					w.Record(c, explore.Result{Viol: v, Outcome: "server-id", Steps: 1})
-					w.Count(0, 1)
+				for _, conn := range []string{"fake", "none"} {
+					i := idx
+					idx++
+					if !w.Mine(i) {
+						continue
+					}
+					c := explore.Case{Prop: "C17", Unit: "server", H: []string{"pub=" + pub, fmt.Sprintf("nosec=%v", nosec), fmt.Sprintf("preset=%v", preset), "conn=" + conn}}
+					w.BeginUnit(i, "server "+strings.Join(c.H, " "))
+					w.Journal(c)
+					for rep := 0; rep < 4; rep++ { // the generated ID is random when not deterministic
+						v := c17Server(t, c.H)
+						w.Record(c, explore.Result{Viol: v, Outcome: "server-id", Steps: 1})
+						w.Count(0, 1)
+					}
 				}
 			}
 		}
